@@ -271,15 +271,7 @@ func runC14(p *an.Prog, r *an.Run, tier string) {
 
 	// ---- getPendingChan: buffered channel stored under the key
 	bad = nil
-	okBuf := false
-	an.AllInstrs(gpc, func(in ssa.Instruction) {
-		if mc, ok := in.(*ssa.MakeChan); ok {
-			if k, ok := an.ConstInt(mc.Size); ok && k >= 1 {
-				okBuf = true
-			}
-		}
-	})
-	if !okBuf {
+	if !replyChanBuffered(gpc) {
 		bad = append(bad, "the reply channel is unbuffered: a reply arriving before its caller waits blocks the whole read loop")
 	}
 	keyPrm := gpc.Params[1]
@@ -719,4 +711,22 @@ func calleeWaits(p *an.Prog, fn *ssa.Function, depth int) bool {
 		})
 	}
 	return waits
+}
+
+// replyChanBuffered: the per-id reply channel made by getPendingChan has room for the reply (the read loop's send never
+// waits for a caller that has gone away or has not arrived yet).
+func replyChanBuffered(gpc *ssa.Function) bool {
+	ok := false
+	n := 0
+	an.AllInstrs(gpc, func(in ssa.Instruction) {
+		if mc, isMC := in.(*ssa.MakeChan); isMC {
+			n++
+			if k, isK := an.ConstInt(mc.Size); isK && k >= 1 {
+				ok = true
+			} else {
+				ok = false
+			}
+		}
+	})
+	return ok && n >= 1
 }
